@@ -311,11 +311,59 @@ pub fn run_history(h: &[AOp], transport: TransportType, base: Instant, errs: &mu
     trace
 }
 
+
+/// reduced alphabet for the exhaustive small-scope enumeration (two transactions, one unsealed and one sealed)
+pub fn small_alphabet() -> Vec<AOp> {
+    vec![
+        AOp::Send { t: 0, class: 0, sealed: 0, to: 0 },
+        AOp::Send { t: 1, class: 0, sealed: 1, to: 1 },
+        AOp::PollAt(PollWhen::Exact),
+        AOp::PollAt(PollWhen::Early),
+        AOp::PollAt(PollWhen::Late(3)),
+        AOp::Handle { kind: 3, t: 0, from: 0 },
+        AOp::Handle { kind: 0, t: 1, from: 1 },
+        AOp::Handle { kind: 2, t: 1, from: 1 },
+        AOp::Cancel(0),
+        AOp::CancelRetrans(1),
+        AOp::Configure { t: 0, rto: 100, n: 1, last: 300 },
+        AOp::SetRemote(0),
+    ]
+}
+/// the `index`-th history of length `depth` over the small alphabet (base-12 digits, least significant first)
+pub fn small_history(depth: usize, mut index: u64) -> Vec<AOp> {
+    let a = small_alphabet();
+    let mut h = vec![];
+    for _ in 0..depth { h.push(a[(index % a.len() as u64) as usize].clone()); index /= a.len() as u64; }
+    h
+}
+
 fn agent_mode(name: &str, rule: &str, tier: &str, seed: u64, prefixes: &[&str], shift_check: bool) -> Report {
     let mut rep = Report::new(name, rule);
     let mut rng = Rng::new(seed);
     let n = crate::modes::n_cases(tier, 6000, 100000);
     let base = Instant::now();
+    // exhaustive small scope: EVERY history of length 1..=depth over the 12-operation alphabet, UDP (and TCP in the thorough tier)
+    let depth = if tier == "thorough" { 5 } else { 4 };
+    let transports: &[TransportType] = if tier == "thorough" { &[TransportType::Udp, TransportType::Tcp] } else { &[TransportType::Udp] };
+    let mut exhaustive = 0u64;
+    for &transport in transports {
+        for d in 1..=depth {
+            let total = (small_alphabet().len() as u64).pow(d as u32);
+            for idx in 0..total {
+                let h = small_history(d, idx);
+                let mut errs = vec![];
+                let trace = run_history(&h, transport, base, &mut errs);
+                exhaustive += 1;
+                rep.case(trace.iter().any(|t| t.contains("SendData") || t.contains("StunResponse") || t.contains("TimedOut") || t.contains("Cancelled(")), format!("exh{:?}{}:{}", transport, d, idx).as_bytes());
+                let wit = format!("{}:exh:{}:{}:{}", name, d, idx, if transport == TransportType::Tcp { "tcp" } else { "udp" });
+                for (k, e) in errs {
+                    if prefixes.iter().any(|p| k.starts_with(p)) { rep.violate(&k, format!("{} | history {:?}", e, h), wit.clone()); }
+                    else if shift_check && k.starts_with("C06:") { rep.violate("C20:schedule-depends-on-other-calls", format!("{} | history {:?}", e, h), wit.clone()); }
+                }
+            }
+        }
+    }
+    rep.notes.push(format!("exhaustive: all {} histories of length 1..={} over the 12-operation small alphabet ({:?})", exhaustive, depth, transports));
     for i in 0..n {
         let len = if i % 50 == 49 { 200 } else { rng.range(3, 14) as usize };
         let mut hr = Rng::new(seed ^ (i.wrapping_mul(0x9E37)));
